@@ -197,9 +197,11 @@ static void sched_child(const void *job, size_t n) {
 	  else if (sched_variant == 2) ml = rc_build_msg(mm, SB.n[sbn].addr, seq, MSG_BM_MULTIPLE, mfree, 3);
 	  else ml = rc_build_msg(mm, SB.n[sbn].addr, seq, MSG_BM_ADDRESS, back, 3);
 	  env_push_quiet(f, rc_frame(f, mm, (size_t) ml, 1)); }
+	vs_unlock_points = 1;      /* a handler that updates the segment, drops the lock and derives the train values afterwards is interruptible in between */
 	vs_window(1);
 	int t1 = vs_spawn(sched_reader, NULL); vs_join_tid(t1); hx_quiesce();
 	vs_window(0);
+	vs_unlock_points = 0;
 	drain();
 	static const char *VN[4] = {"train1 enters seg1 (address report)", "train1 leaves seg1 (free report)", "train1 leaves seg1 (multiple report)", "train1 turns round in seg1 (address report)"};
 	int lag = 0;
